@@ -406,6 +406,21 @@ def rule_objective_construction(eng, rep, A):
                     continue  # unpacked from get_final_results: covered by (a)
             n += 1
             _check_obj_value(eng, rep, rule, sm, cfg, nnode, e, eng.where(sm, st), "returned obj")
+            # the residual returned next to it is the one the objective was computed from
+            rres = st.value.elts[1]
+            used = set()
+            exprs = [e]
+            if isinstance(e, ast.Name):
+                exprs = [cfg.ast_of(dn).value for dn in cfg.defs_reaching(e, e.id) if isinstance(cfg.ast_of(dn), (ast.Assign, ast.AugAssign))]
+            for ex in exprs:
+                for sub in ast.walk(ex):
+                    if isinstance(sub, ast.Call) and _is_sumsq(eng, sub) and sub.args:
+                        used.add(ekey(sub.args[0]))
+            if used and ekey(rres) not in used:
+                rep.bad(rule, eng.where(sm, st), "solver.solve_main|returned-residual-is-not-the-one-summed|%s" % ekey(rres)[:20],
+                        "this return hands back the residual `%s` but the objective next to it is sumsq(%s): soln.obj != sum(soln.resid^2), and resid is not the mean over the samples" % (ekey(rres), sorted(used)[0]))
+            elif used:
+                rep.ok(rule, eng.where(sm, st), "returned residual `%s` is the vector whose sum of squares is the returned objective" % ekey(rres))
     rep.require_count(rule, "objective stores", n, 5)
 
 
